@@ -1,4 +1,712 @@
-import LlgoVerif.Spec.TypeIdent
-import LlgoVerif.Model.Iface
+import LlgoVerif.Lemmas.GoTypeStr
+/-!
+# Lemmas for C07: the run-time type name determines the type (and conversely)
+
+Layout: the decidable side conditions (`wfT`, `tagsErased`, `declKeys`/`Coherent`) → character
+classes → invariants of `nameC` (atoms are flat; no newline; balanced brackets; head
+classification) → the mutual induction `inj_T`/`inj_L`/`inj_F`/`inj_M`.
+-/
 namespace LlgoVerif.Types
+
+/-! ## decidable side conditions -/
+
+/-- characters that may occur in a package path -/
+def pathChar (c : Char) : Bool :=
+  c != ' ' && c != '\n' && c != '[' && c != ']' && c != '$' && c != '*' && c != '<' && c != ',' && c != '(' && c != ')'
+/-- characters of the hash token (base64url: letters, digits, `-`, `_`) -/
+def hashChar (c : Char) : Bool := pathChar c && c != '.'
+/-- characters of an identifier -/
+def identChar (c : Char) : Bool := hashChar c && c != '-' && c != '/'
+
+def identOk (s : Str) : Bool :=
+  match s with
+  | [] => false
+  | c :: r => !isDigit c && (c :: r).all identChar
+
+def pathOk (s : Str) : Bool := s != [] && s.all pathChar
+
+def pkgOk : Option Str → Bool
+  | none => true
+  | some p => pathOk p
+
+/-- names a package-less named type must not have (they are the names of the basic types) -/
+def reserved : List Str :=
+  ["bool", "int", "int8", "int16", "int32", "int64", "uint", "uint8", "uint16", "uint32", "uint64", "uintptr",
+   "float32", "float64", "complex64", "complex128", "string", "Pointer", "byte", "rune", "any"].map String.toList
+
+/-- the field name Go derives for an embedded field of this type (canonical spellings only:
+    an alias, `byte` or `rune` is excluded — their field names are not determined by the type) -/
+def embName : GoType → Option Str
+  | .named _ _ name _ _ => some name
+  | .pointer (.named _ _ name _ _) => some name
+  | .basic k => if k = .byte ∨ k = .rune then none else some (basicGoName k)
+  | _ => none
+
+def isFunc : GoType → Bool
+  | .func _ _ _ => true
+  | _ => false
+
+def scOk : Scope → Bool
+  | .pos _ => false
+  | _ => true
+
+def uniformF (q : Str) : FList → Bool
+  | .nil => true
+  | .cons _ pkg _ _ _ r => (match pkg with | none => true | some p => p == q) && uniformF q r
+
+def uniformM (q : Str) : MList → Bool
+  | .nil => true
+  | .cons _ pkg _ r => (match pkg with | none => true | some p => p == q) && uniformM q r
+
+mutual
+/-- well-formedness + the fragment the injectivity proof covers (`ex` = "is this name exported"):
+    identifiers and package paths use sane characters; `pkg` is present exactly on non-exported
+    names; all non-exported names of one struct / interface belong to one package; an embedded
+    field's name is the one its type determines; interface methods have func signatures; named
+    types have no type arguments and no detached scope (`Scope.pos`). -/
+def wfT (ex : Str → Bool) : GoType → Bool
+  | .basic _ => true
+  | .pointer e => wfT ex e
+  | .slice e => wfT ex e
+  | .array _ e => wfT ex e
+  | .map k v => wfT ex k && wfT ex v
+  | .chan _ e => wfT ex e
+  | .alias _ a => wfT ex a
+  | .func ps rs _ => wfL ex ps && wfL ex rs
+  | .struct fs => wfF ex fs && uniformF (firstPkgF fs) fs
+  | .iface ms => wfM ex ms && uniformM (firstPkgM ms) ms
+  | .named _ pkg name sc targs =>
+    identOk name && targs.isNil && scOk sc &&
+      (match pkg with | none => !(reserved.contains name) | some p => pathOk p)
+def wfL (ex : Str → Bool) : TList → Bool
+  | .nil => true
+  | .cons t r => wfT ex t && wfL ex r
+def wfF (ex : Str → Bool) : FList → Bool
+  | .nil => true
+  | .cons name pkg emb _ t r =>
+    identOk name && pkgOk pkg && (pkg.isNone == ex name) && (!emb || embName t == some name) &&
+      wfT ex t && wfF ex r
+def wfM (ex : Str → Bool) : MList → Bool
+  | .nil => true
+  | .cons name pkg sig r =>
+    identOk name && pkgOk pkg && (pkg.isNone == ex name) && isFunc sig && wfT ex sig && wfM ex r
+end
+
+mutual
+/-- no struct field carries a tag -/
+def tagsErased : GoType → Bool
+  | .basic _ => true
+  | .pointer e => tagsErased e
+  | .slice e => tagsErased e
+  | .array _ e => tagsErased e
+  | .map k v => tagsErased k && tagsErased v
+  | .chan _ e => tagsErased e
+  | .alias _ a => tagsErased a
+  | .func ps rs _ => tagsErasedL ps && tagsErasedL rs
+  | .struct fs => tagsErasedF fs
+  | .iface ms => tagsErasedM ms
+  | .named _ _ _ _ targs => tagsErasedL targs
+def tagsErasedL : TList → Bool
+  | .nil => true
+  | .cons t r => tagsErased t && tagsErasedL r
+def tagsErasedF : FList → Bool
+  | .nil => true
+  | .cons _ _ _ tag t r => tag == [] && tagsErased t && tagsErasedF r
+def tagsErasedM : MList → Bool
+  | .nil => true
+  | .cons _ _ s r => tagsErased s && tagsErasedM r
+end
+
+/-- what `TypeName` renders of a type declaration: (PathOf package, name, scope indices) -/
+abbrev Key := Option Str × Str × List Nat
+
+def scIdx : Scope → List Nat
+  | .path idx => idx
+  | _ => []
+
+def keyOf (pkg : Option Str) (name : Str) (sc : Scope) : Key :=
+  match pkg with
+  | none => (none, name, [])
+  | some p => (some (pathOf p), name, scIdx sc)
+
+mutual
+/-- every named-type node of a term with its declaration id and rendered key -/
+def declKeys : GoType → List (Nat × Key)
+  | .basic _ => []
+  | .pointer e => declKeys e
+  | .slice e => declKeys e
+  | .array _ e => declKeys e
+  | .map k v => declKeys k ++ declKeys v
+  | .chan _ e => declKeys e
+  | .alias _ a => declKeys a
+  | .func ps rs _ => declKeysL ps ++ declKeysL rs
+  | .struct fs => declKeysF fs
+  | .iface ms => declKeysM ms
+  | .named d pkg name sc targs => (d, keyOf pkg name sc) :: declKeysL targs
+def declKeysL : TList → List (Nat × Key)
+  | .nil => []
+  | .cons t r => declKeys t ++ declKeysL r
+def declKeysF : FList → List (Nat × Key)
+  | .nil => []
+  | .cons _ _ _ _ t r => declKeys t ++ declKeysF r
+def declKeysM : MList → List (Nat × Key)
+  | .nil => []
+  | .cons _ _ s r => declKeys s ++ declKeysM r
+end
+
+/-- the declaration environment is coherent: two named-type nodes denote the same declaration
+    exactly when (PathOf package, name, scope indices) agree.  This is what `scopeIndices` is for;
+    it fails e.g. for a patched package and its original (`PathOf` maps both to one path). -/
+def Coherent (E : List (Nat × Key)) : Prop := ∀ a ∈ E, ∀ b ∈ E, (a.1 = b.1 ↔ a.2 = b.2)
+
+instance (E : List (Nat × Key)) : Decidable (Coherent E) := by unfold Coherent; exact inferInstance
+
+
+/-! ## character classes -/
+
+def flatChar (c : Char) : Bool := c != ' ' && c != '\n' && c != '[' && c != ']' && c != '*' && c != '<'
+
+/-- a string without blanks, newlines, brackets, `*`, `<` -/
+def Flat (s : Str) : Prop := ∀ c ∈ s, flatChar c = true
+
+theorem pathChar_flat {c : Char} (h : pathChar c = true) : flatChar c = true := by
+  simp [pathChar, flatChar] at *; simp [h]
+
+theorem hashChar_path {c : Char} (h : hashChar c = true) : pathChar c = true := by
+  simp [hashChar] at h; exact h.1
+
+theorem identChar_hash {c : Char} (h : identChar c = true) : hashChar c = true := by
+  simp [identChar] at h; exact h.1.1
+
+theorem isDigit_flat {c : Char} (h : isDigit c = true) : flatChar c = true := by
+  simp only [isDigit, Bool.and_eq_true, decide_eq_true_eq] at h
+  simp only [flatChar, Bool.and_eq_true, bne_iff_ne, ne_eq]
+  refine ⟨⟨⟨⟨⟨?_, ?_⟩, ?_⟩, ?_⟩, ?_⟩, ?_⟩ <;> (intro hc; subst hc; revert h; decide)
+
+theorem isDigit_ne {c : Char} (h : isDigit c = true) : c ≠ '.' ∧ c ≠ ']' ∧ c ≠ ' ' ∧ c ≠ '\n' ∧ c ≠ '$' := by
+  simp only [isDigit, Bool.and_eq_true, decide_eq_true_eq] at h
+  refine ⟨?_, ?_, ?_, ?_, ?_⟩ <;> (intro hc; subst hc; revert h; decide)
+
+theorem flat_append {a b : Str} (ha : Flat a) (hb : Flat b) : Flat (a ++ b) := by
+  intro c hc; simp at hc; rcases hc with h | h; exact ha c h; exact hb c h
+
+theorem flat_cons {c : Char} {s : Str} (hc : flatChar c = true) (hs : Flat s) : Flat (c :: s) := by
+  intro x hx; simp at hx; rcases hx with rfl | h; exact hc; exact hs x h
+
+theorem flat_of_all {s : Str} {p : Char → Bool} (h : s.all p = true) (hp : ∀ c, p c = true → flatChar c = true) : Flat s := by
+  intro c hc; simp at h; exact hp c (h c hc)
+
+theorem flat_dec (n : Nat) : Flat (dec n) := fun c hc => isDigit_flat (dec_isDigit n c hc)
+
+theorem flat_nl {s : Str} (h : Flat s) : '\n' ∉ s := by
+  intro hc; have := h _ hc; revert this; decide
+
+theorem flat_sp {s : Str} (h : Flat s) : ' ' ∉ s := by
+  intro hc; have := h _ hc; revert this; decide
+
+theorem flat_balanced {s : Str} (h : Flat s) : Balanced s := by
+  apply balanced_plain
+  · intro hc; have := h _ hc; revert this; decide
+  · intro hc; have := h _ hc; revert this; decide
+
+theorem identOk_all {s : Str} (h : identOk s = true) : s.all identChar = true ∧ s ≠ [] := by
+  cases s with
+  | nil => simp [identOk] at h
+  | cons c r => simp only [identOk, Bool.and_eq_true] at h; exact ⟨h.2, by simp⟩
+
+theorem identOk_flat {s : Str} (h : identOk s = true) : Flat s :=
+  flat_of_all (identOk_all h).1 fun _ hc => pathChar_flat (hashChar_path (identChar_hash hc))
+
+theorem identOk_notin {s : Str} (h : identOk s = true) : '.' ∉ s ∧ '$' ∉ s ∧ ' ' ∉ s ∧ '-' ∉ s := by
+  have ha := (identOk_all h).1
+  simp only [List.all_eq_true] at ha
+  refine ⟨?_, ?_, ?_, ?_⟩ <;> (intro hc; have := ha _ hc; revert this; decide)
+
+theorem pathOk_chars {s : Str} (h : pathOk s = true) : ∀ c ∈ s, pathChar c = true := by
+  simp [pathOk] at h; exact h.2
+
+theorem pathOk_ne {s : Str} (h : pathOk s = true) : s ≠ [] := by
+  simp [pathOk] at h; exact h.1
+
+theorem pathChars_flat {s : Str} (h : ∀ c ∈ s, pathChar c = true) : Flat s := fun c hc => pathChar_flat (h c hc)
+
+theorem pathChars_nodollar {s : Str} (h : ∀ c ∈ s, pathChar c = true) : '$' ∉ s := by
+  intro hc; have := h _ hc; revert this; decide
+
+theorem pathOf_chars {p : Str} (h : ∀ c ∈ p, pathChar c = true) : ∀ c ∈ pathOf p, pathChar c = true := by
+  unfold pathOf
+  split
+  · intro c hc; exact h c (List.mem_of_mem_drop hc)
+  · exact h
+
+theorem hash_flat {hc : Str → Str} (hclean : ∀ x, ∀ c ∈ hc x, hashChar c = true) (x : Str) : Flat (hc x) :=
+  fun c h => pathChar_flat (hashChar_path (hclean x c h))
+
+theorem hash_nodollar {hc : Str → Str} (hclean : ∀ x, ∀ c ∈ hc x, hashChar c = true) (x : Str) : '$' ∉ hc x := by
+  intro h; have := hclean x _ h; revert this; decide
+
+theorem hash_nodot {hc : Str → Str} (hclean : ∀ x, ∀ c ∈ hc x, hashChar c = true) (x : Str) : '.' ∉ hc x := by
+  intro h; have := hclean x _ h; revert this; decide
+
+/-! ## package prefixes -/
+
+theorem firstPkgF_chars {ex : Str → Bool} : ∀ fs, wfF ex fs = true → ∀ c ∈ firstPkgF fs, pathChar c = true
+  | .nil, _ => by simp [firstPkgF]
+  | .cons _ pkg _ _ _ r, h => by
+    simp only [wfF, Bool.and_eq_true] at h
+    have ih := firstPkgF_chars r h.2
+    cases pkg with
+    | none => simpa [firstPkgF] using ih
+    | some p =>
+      simp only [firstPkgF]
+      split
+      · exact ih
+      · exact pathOk_chars (by simpa [pkgOk] using h.1.1.1.1.2)
+
+theorem firstPkgM_chars {ex : Str → Bool} : ∀ ms, wfM ex ms = true → ∀ c ∈ firstPkgM ms, pathChar c = true
+  | .nil, _ => by simp [firstPkgM]
+  | .cons _ pkg _ r, h => by
+    simp only [wfM, Bool.and_eq_true] at h
+    have ih := firstPkgM_chars r h.2
+    cases pkg with
+    | none => simpa [firstPkgM] using ih
+    | some p =>
+      simp only [firstPkgM]
+      split
+      · exact ih
+      · exact pathOk_chars (by simpa [pkgOk] using h.1.1.1.1.2)
+
+theorem isClosure_false {ex : Str → Bool} (fs : FList) (h : wfF ex fs = true) : isClosure fs = false := by
+  unfold isClosure
+  split
+  · next n1 _ _ _ _ _ _ n2 _ _ _ =>
+    simp only [wfF, Bool.and_eq_true] at h
+    have hn := (identOk_notin h.1.1.1.1.1).2.1
+    have : n1 ≠ ['$', 'f'] := by intro e; rw [e] at hn; revert hn; decide
+    simp
+    intro e; exact absurd e this
+  · rfl
+
+
+/-! ## invariants of `nameC` -/
+
+section
+variable {hc : Str → Str} (hclean : ∀ x, ∀ c ∈ hc x, hashChar c = true) {ex : Str → Bool}
+
+theorem flat_lit_dollar_dot (s : Str) (h : s.all flatChar = true) : Flat s := flat_of_all h fun _ h => h
+
+theorem name_basic_flat (k : BasicKind) : Flat (nameC hc false (.basic k)) := by
+  simp only [nameC]
+  cases k <;> exact flat_lit_dollar_dot _ (by decide)
+
+include hclean in
+theorem name_func_flat (ps rs : TList) (v : Bool) : Flat (nameC hc false (.func ps rs v)) := by
+  simp only [nameC]
+  exact flat_append (flat_lit_dollar_dot _ (by decide)) (hash_flat hclean _)
+
+include hclean in
+theorem name_struct_flat (fs : FList) (h : wfF ex fs = true) : Flat (nameC hc false (.struct fs)) := by
+  simp only [nameC, isClosure_false fs h, Bool.false_and, Bool.false_eq_true, if_false]
+  split
+  · exact flat_append (flat_lit_dollar_dot _ (by decide)) (hash_flat hclean _)
+  · exact flat_append (pathChars_flat (firstPkgF_chars fs h))
+      (flat_append (flat_lit_dollar_dot _ (by decide)) (hash_flat hclean _))
+
+include hclean in
+theorem name_iface_flat (ms : MList) (h : wfM ex ms = true) : Flat (nameC hc false (.iface ms)) := by
+  simp only [nameC]
+  split
+  · exact flat_lit_dollar_dot _ (by decide)
+  · split
+    · exact flat_append (flat_lit_dollar_dot _ (by decide)) (hash_flat hclean _)
+    · exact flat_append (pathChars_flat (firstPkgM_chars ms h))
+        (flat_append (flat_lit_dollar_dot _ (by decide)) (hash_flat hclean _))
+
+theorem scopeIdx_flat (idx : List Nat) : Flat (idx.flatMap fun i => '.' :: dec i) := by
+  intro c hc
+  simp at hc
+  obtain ⟨i, _, h⟩ := hc
+  rcases h with rfl | h
+  · decide
+  · exact flat_dec i c h
+
+theorem scopeStr_flat (pkg : Option Str) (sc : Scope) (h : scOk sc = true) : Flat (scopeStr pkg sc) := by
+  unfold scopeStr
+  cases pkg with
+  | none => intro c hc; simp at hc
+  | some p =>
+    cases sc with
+    | pkg => intro c hc; simp at hc
+    | path idx => exact scopeIdx_flat idx
+    | pos p => simp [scOk] at h
+
+theorem name_named_flat (d : Nat) (pkg : Option Str) (name : Str) (sc : Scope) (targs : TList)
+    (h : wfT ex (.named d pkg name sc targs) = true) : Flat (nameC hc false (.named d pkg name sc targs)) := by
+  simp only [wfT, Bool.and_eq_true] at h
+  obtain ⟨⟨⟨hn, ht⟩, hs⟩, hp⟩ := h
+  cases targs with
+  | cons _ _ => simp [TList.isNil] at ht
+  | nil =>
+    simp only [nameC, namedName, TList.isNil, if_true, List.append_nil]
+    apply flat_append (flat_lit_dollar_dot _ (by decide))
+    cases pkg with
+    | none => exact flat_append (identOk_flat hn) (scopeStr_flat _ _ hs)
+    | some p =>
+      simp only [fullName]
+      exact flat_append (pathChars_flat (pathOf_chars (pathOk_chars hp)))
+        (flat_cons (by decide) (flat_append (identOk_flat hn) (scopeStr_flat _ _ hs)))
+
+/-- no newline, balanced brackets -/
+def Inv (s : Str) : Prop := '\n' ∉ s ∧ Balanced s
+
+theorem inv_flat {s : Str} (h : Flat s) : Inv s := ⟨flat_nl h, flat_balanced h⟩
+
+theorem inv_append {a b : Str} (ha : Inv a) (hb : Inv b) : Inv (a ++ b) :=
+  ⟨by simp [ha.1, hb.1], balanced_append ha.2 hb.2⟩
+
+theorem inv_star : Inv ['*'] := ⟨by decide, balanced_plain _ (by decide) (by decide)⟩
+
+theorem inv_brackets {s : Str} (h : Flat s) : Inv ('[' :: s ++ [']']) :=
+  ⟨by have := flat_nl h; simp [this], balanced_bracket (flat_balanced h)⟩
+
+theorem inv_brackets' {s : Str} (h : Inv s) : Inv ('[' :: s ++ [']']) :=
+  ⟨by simp [h.1], balanced_bracket h.2⟩
+
+include hclean in
+theorem name_inv : ∀ (t : GoType), wfT ex t = true → Inv (nameC hc false t)
+  | .basic k, _ => inv_flat (name_basic_flat k)
+  | .pointer e, h => by
+    have ih := name_inv e (by simpa [wfT] using h)
+    simp only [nameC]
+    exact inv_append inv_star ih
+  | .slice e, h => by
+    have ih := name_inv e (by simpa [wfT] using h)
+    simp only [nameC]
+    have : Inv ['[', ']'] := inv_brackets (s := []) (by intro c hc; simp at hc)
+    exact inv_append this ih
+  | .array n e, h => by
+    have ih := name_inv e (by simpa [wfT] using h)
+    simp only [nameC]
+    have := inv_append (inv_brackets (flat_dec n)) ih
+    simpa using this
+  | .map k v, h => by
+    simp only [wfT, Bool.and_eq_true] at h
+    have ihk := name_inv k h.1
+    have ihv := name_inv v h.2
+    simp only [nameC]
+    have h1 : Inv "map".toList := inv_flat (flat_lit_dollar_dot _ (by decide))
+    have := inv_append h1 (inv_append (inv_brackets' ihk) ihv)
+    simpa [litMapOpen] using this
+  | .chan d e, h => by
+    have ih := name_inv e (by simpa [wfT] using h)
+    simp only [nameC]
+    have h1 : Inv (chanDirStr d ++ [' ']) := by
+      cases d <;> exact ⟨by decide, balanced_plain _ (by decide) (by decide)⟩
+    have := inv_append h1 ih
+    simpa using this
+  | .alias _ a, h => by
+    have ih := name_inv a (by simpa [wfT] using h)
+    simpa [nameC] using ih
+  | .func ps rs v, _ => inv_flat (name_func_flat hclean ps rs v)
+  | .struct fs, h => by
+    simp only [wfT, Bool.and_eq_true] at h
+    exact inv_flat (name_struct_flat hclean fs h.1)
+  | .iface ms, h => by
+    simp only [wfT, Bool.and_eq_true] at h
+    exact inv_flat (name_iface_flat hclean ms h.1)
+  | .named d pkg name sc targs, h => inv_flat (name_named_flat d pkg name sc targs h)
+
+end
+
+/-! ## classification of a name by its head and, for atoms, by its `$`/`.` shape -/
+
+inductive Head | ptr | slice | array | map | chanB | chanS | chanR | atom
+  deriving DecidableEq, Repr
+
+inductive AC | func | struct | iface | dotted | plain
+  deriving DecidableEq, Repr
+
+def headOf (s : Str) : Head :=
+  if ['*'].isPrefixOf s then .ptr
+  else if ['[', ']'].isPrefixOf s then .slice
+  else if ['['].isPrefixOf s then .array
+  else if litMapOpen.isPrefixOf s then .map
+  else if ['c', 'h', 'a', 'n', ' '].isPrefixOf s then .chanB
+  else if ['c', 'h', 'a', 'n', '<'].isPrefixOf s then .chanS
+  else if ['<'].isPrefixOf s then .chanR
+  else .atom
+
+def atomClass (s : Str) : AC :=
+  if '$' ∈ s then
+    let r := (s.takeWhile (· != '$')).reverse
+    if r.take 4 = ['c', 'n', 'u', 'f'] then .func
+    else if r.take 6 = ['t', 'c', 'u', 'r', 't', 's'] then .struct
+    else .iface
+  else if '.' ∈ s then .dotted else .plain
+
+def classOf (s : Str) : Head × Option AC :=
+  match headOf s with
+  | .atom => (.atom, some (atomClass s))
+  | h => (h, none)
+
+def typeClass : GoType → Head × Option AC
+  | .pointer _ => (.ptr, none)
+  | .slice _ => (.slice, none)
+  | .array _ _ => (.array, none)
+  | .map _ _ => (.map, none)
+  | .chan .both _ => (.chanB, none)
+  | .chan .send _ => (.chanS, none)
+  | .chan .recv _ => (.chanR, none)
+  | .alias _ a => typeClass a
+  | .basic _ => (.atom, some .plain)
+  | .func _ _ _ => (.atom, some .func)
+  | .struct _ => (.atom, some .struct)
+  | .iface ms => if ms.isNil then (.atom, some .plain) else (.atom, some .iface)
+  | .named _ pkg _ _ _ => if pkg.isNone then (.atom, some .plain) else (.atom, some .dotted)
+
+theorem prefix_mem {p s : Str} (h : p.isPrefixOf s = true) : ∀ c ∈ p, c ∈ s := by
+  rw [List.isPrefixOf_iff_prefix] at h
+  obtain ⟨t, rfl⟩ := h
+  intro c hc; simp [hc]
+
+theorem headOf_flat {s : Str} (h : Flat s) : headOf s = .atom := by
+  have hn : ∀ p : Str, (∃ c ∈ p, flatChar c = false) → p.isPrefixOf s = false := by
+    intro p ⟨c, hc, hf⟩
+    cases hp : p.isPrefixOf s with
+    | false => rfl
+    | true => have := h c (prefix_mem hp c hc); rw [hf] at this; cases this
+  unfold headOf
+  rw [hn _ ⟨'*', by simp, by decide⟩, hn _ ⟨'[', by simp, by decide⟩, hn ['['] ⟨'[', by simp, by decide⟩,
+      hn litMapOpen ⟨'[', by decide, by decide⟩, hn _ ⟨' ', by simp, by decide⟩,
+      hn ['c', 'h', 'a', 'n', '<'] ⟨'<', by simp, by decide⟩, hn ['<'] ⟨'<', by simp, by decide⟩]
+  simp
+
+theorem takeWhile_until {α} [BEq α] [LawfulBEq α] (c : α) : ∀ (a b : List α), c ∉ a →
+    (a ++ c :: b).takeWhile (· != c) = a
+  | [], b, _ => by simp
+  | x :: a, b, h => by
+    simp at h
+    have := takeWhile_until c a b h.2
+    simp [this, Ne.symm h.1]
+
+theorem atomClass_dollar {pre h : Str} (hp : '$' ∉ pre) :
+    atomClass (pre ++ '$' :: h) =
+      if pre.reverse.take 4 = ['c', 'n', 'u', 'f'] then .func
+      else if pre.reverse.take 6 = ['t', 'c', 'u', 'r', 't', 's'] then .struct else .iface := by
+  unfold atomClass
+  have : '$' ∈ pre ++ '$' :: h := by simp
+  simp only [this, if_true, takeWhile_until '$' pre h hp]
+
+
+/-! ## the class of `nameC t` is the class of `t` -/
+
+section
+variable {hc : Str → Str} (hclean : ∀ x, ∀ c ∈ hc x, hashChar c = true) {ex : Str → Bool}
+
+theorem classOf_flat {s : Str} (h : Flat s) : classOf s = (.atom, some (atomClass s)) := by
+  unfold classOf; rw [headOf_flat h]
+
+theorem atomClass_plain {s : Str} (h1 : '$' ∉ s) (h2 : '.' ∉ s) : atomClass s = .plain := by
+  unfold atomClass; simp [h1, h2]
+
+theorem atomClass_dotted {s : Str} (h1 : '$' ∉ s) (h2 : '.' ∈ s) : atomClass s = .dotted := by
+  unfold atomClass; simp [h1, h2]
+
+theorem scopeStr_nodollar (pkg : Option Str) (sc : Scope) : '$' ∉ scopeStr pkg sc := by
+  unfold scopeStr
+  cases pkg with
+  | none => simp
+  | some p =>
+    cases sc with
+    | pkg => simp
+    | path idx =>
+      simp only [List.mem_flatMap, not_exists, not_and]
+      intro i _ h
+      have h' : '$' ∈ dec i := by simpa using h
+      have := dec_isDigit i _ h'; revert this; decide
+    | pos p =>
+      simp only
+      split
+      · simp
+      · intro h
+        have h' : '$' ∈ dec p := by simpa using h
+        have := dec_isDigit p _ h'; revert this; decide
+
+theorem scopeStr_none_nodot (sc : Scope) : scopeStr none sc = [] := by simp [scopeStr]
+
+include hclean in
+theorem class_name : ∀ (t : GoType), wfT ex t = true → classOf (nameC hc false t) = typeClass t
+  | .pointer e, _ => by simp [nameC, classOf, headOf, typeClass]
+  | .slice e, _ => by simp [nameC, classOf, headOf, typeClass]
+  | .array n e, _ => by
+    simp only [nameC, typeClass]
+    cases hd : dec n with
+    | nil => exact absurd hd (dec_ne_nil n)
+    | cons d ds =>
+      have : d ≠ ']' := (isDigit_ne (dec_isDigit n d (by simp [hd]))).2.1
+      have this' : ¬ (']' = d) := fun e => this e.symm
+      simp [classOf, headOf, this']
+  | .map k v, _ => by simp [nameC, classOf, headOf, typeClass, litMapOpen]
+  | .chan d e, _ => by cases d <;> simp [nameC, classOf, headOf, typeClass, chanDirStr, litMapOpen]
+  | .alias _ a, h => by
+    have := class_name a (by simpa [wfT] using h)
+    simpa [nameC, typeClass] using this
+  | .basic k, _ => by
+    rw [classOf_flat (name_basic_flat k)]
+    simp only [nameC, typeClass]
+    cases k <;> decide
+  | .func ps rs v, _ => by
+    rw [classOf_flat (name_func_flat hclean ps rs v)]
+    simp only [nameC, typeClass]
+    have : litFunc = ['_', 'l', 'l', 'g', 'o', '_', 'f', 'u', 'n', 'c'] ++ ['$'] := rfl
+    rw [this, List.append_assoc, List.singleton_append, atomClass_dollar (by decide)]
+    simp
+  | .struct fs, h => by
+    simp only [wfT, Bool.and_eq_true] at h
+    rw [classOf_flat (name_struct_flat hclean fs h.1)]
+    simp only [nameC, isClosure_false fs h.1, Bool.false_and, Bool.false_eq_true, if_false, typeClass]
+    split
+    · have : litStruct = ['_', 'l', 'l', 'g', 'o', '_', 's', 't', 'r', 'u', 'c', 't'] ++ ['$'] := rfl
+      rw [this, List.append_assoc, List.singleton_append, atomClass_dollar (by decide)]
+      simp
+    · have : litStructP = ['.', 's', 't', 'r', 'u', 'c', 't'] ++ ['$'] := rfl
+      rw [this, List.append_assoc, ← List.append_assoc, List.singleton_append,
+        atomClass_dollar (by
+          have := pathChars_nodollar (firstPkgF_chars fs h.1)
+          simp [this])]
+      simp
+  | .iface ms, h => by
+    simp only [wfT, Bool.and_eq_true] at h
+    rw [classOf_flat (name_iface_flat hclean ms h.1)]
+    simp only [nameC, typeClass]
+    split
+    · decide
+    · split
+      · have : litIface = ['_', 'l', 'l', 'g', 'o', '_', 'i', 'f', 'a', 'c', 'e'] ++ ['$'] := rfl
+        rw [this, List.append_assoc, List.singleton_append, atomClass_dollar (by decide)]
+        simp
+      · have : litIfaceP = ['.', 'i', 'f', 'a', 'c', 'e'] ++ ['$'] := rfl
+        rw [this, List.append_assoc, ← List.append_assoc, List.singleton_append,
+          atomClass_dollar (by
+            have := pathChars_nodollar (firstPkgM_chars ms h.1)
+            simp [this])]
+        simp
+  | .named d pkg name sc targs, h => by
+    rw [classOf_flat (name_named_flat d pkg name sc targs h)]
+    simp only [wfT, Bool.and_eq_true] at h
+    obtain ⟨⟨⟨hn, ht⟩, hs⟩, hp⟩ := h
+    cases targs with
+    | cons _ _ => simp [TList.isNil] at ht
+    | nil =>
+      simp only [nameC, namedName, TList.isNil, if_true, List.append_nil, typeClass]
+      have hnd := identOk_notin hn
+      cases pkg with
+      | none =>
+        simp only [fullName, Option.isNone_none, if_true, scopeStr_none_nodot, List.append_nil]
+        rw [atomClass_plain]
+        · simp [llgoPrefix, hnd.2.1]
+        · simp [llgoPrefix, hnd.1]
+      | some p =>
+        simp only [fullName, Option.isNone_some, Bool.false_eq_true, if_false]
+        rw [atomClass_dotted]
+        · have h1 := pathChars_nodollar (pathOf_chars (pathOk_chars hp))
+          have h2 := scopeStr_nodollar (some p) sc
+          simp [llgoPrefix, h1, h2, hnd.2.1]
+        · simp
+
+end
+
+/-! ## aliases are transparent -/
+
+theorem unalias_ne_alias : ∀ (t : GoType) (n : Str) (a : GoType), unalias t ≠ .alias n a
+  | .alias _ b, n, a => by rw [unalias]; exact unalias_ne_alias b n a
+  | .basic _, _, _ => by simp [unalias]
+  | .pointer _, _, _ => by simp [unalias]
+  | .slice _, _, _ => by simp [unalias]
+  | .array _ _, _, _ => by simp [unalias]
+  | .map _ _, _, _ => by simp [unalias]
+  | .chan _ _, _, _ => by simp [unalias]
+  | .func _ _ _, _, _ => by simp [unalias]
+  | .struct _, _, _ => by simp [unalias]
+  | .iface _, _, _ => by simp [unalias]
+  | .named _ _ _ _ _, _, _ => by simp [unalias]
+
+theorem unalias_idem : ∀ (t : GoType), unalias (unalias t) = unalias t
+  | .alias _ b => by rw [unalias]; exact unalias_idem b
+  | .basic _ => by simp [unalias]
+  | .pointer _ => by simp [unalias]
+  | .slice _ => by simp [unalias]
+  | .array _ _ => by simp [unalias]
+  | .map _ _ => by simp [unalias]
+  | .chan _ _ => by simp [unalias]
+  | .func _ _ _ => by simp [unalias]
+  | .struct _ => by simp [unalias]
+  | .iface _ => by simp [unalias]
+  | .named _ _ _ _ _ => by simp [unalias]
+
+theorem nameC_unalias (hc : Str → Str) (pub : Bool) : ∀ (t : GoType), nameC hc pub t = nameC hc pub (unalias t)
+  | .alias _ b => by rw [unalias, nameC]; exact nameC_unalias hc pub b
+  | .basic _ => by simp [unalias]
+  | .pointer _ => by simp [unalias]
+  | .slice _ => by simp [unalias]
+  | .array _ _ => by simp [unalias]
+  | .map _ _ => by simp [unalias]
+  | .chan _ _ => by simp [unalias]
+  | .func _ _ _ => by simp [unalias]
+  | .struct _ => by simp [unalias]
+  | .iface _ => by simp [unalias]
+  | .named _ _ _ _ _ => by simp [unalias]
+
+theorem wfT_unalias (ex : Str → Bool) : ∀ (t : GoType), wfT ex (unalias t) = wfT ex t
+  | .alias _ b => by rw [unalias, wfT]; exact wfT_unalias ex b
+  | .basic _ => by simp [unalias]
+  | .pointer _ => by simp [unalias]
+  | .slice _ => by simp [unalias]
+  | .array _ _ => by simp [unalias]
+  | .map _ _ => by simp [unalias]
+  | .chan _ _ => by simp [unalias]
+  | .func _ _ _ => by simp [unalias]
+  | .struct _ => by simp [unalias]
+  | .iface _ => by simp [unalias]
+  | .named _ _ _ _ _ => by simp [unalias]
+
+theorem tagsErased_unalias : ∀ (t : GoType), tagsErased (unalias t) = tagsErased t
+  | .alias _ b => by rw [unalias, tagsErased]; exact tagsErased_unalias b
+  | .basic _ => by simp [unalias]
+  | .pointer _ => by simp [unalias]
+  | .slice _ => by simp [unalias]
+  | .array _ _ => by simp [unalias]
+  | .map _ _ => by simp [unalias]
+  | .chan _ _ => by simp [unalias]
+  | .func _ _ _ => by simp [unalias]
+  | .struct _ => by simp [unalias]
+  | .iface _ => by simp [unalias]
+  | .named _ _ _ _ _ => by simp [unalias]
+
+theorem declKeys_unalias : ∀ (t : GoType), declKeys (unalias t) = declKeys t
+  | .alias _ b => by rw [unalias, declKeys]; exact declKeys_unalias b
+  | .basic _ => by simp [unalias]
+  | .pointer _ => by simp [unalias]
+  | .slice _ => by simp [unalias]
+  | .array _ _ => by simp [unalias]
+  | .map _ _ => by simp [unalias]
+  | .chan _ _ => by simp [unalias]
+  | .func _ _ _ => by simp [unalias]
+  | .struct _ => by simp [unalias]
+  | .iface _ => by simp [unalias]
+  | .named _ _ _ _ _ => by simp [unalias]
+
+theorem identical_unalias_r : ∀ (t₁ t₂ : GoType), identical t₁ t₂ = identical t₁ (unalias t₂)
+  | .alias _ b, t₂ => by rw [identical, identical]; exact identical_unalias_r b t₂
+  | .basic _, _ => by simp [identical, unalias_idem]
+  | .pointer _, _ => by simp [identical, unalias_idem]
+  | .slice _, _ => by simp [identical, unalias_idem]
+  | .array _ _, _ => by simp [identical, unalias_idem]
+  | .map _ _, _ => by simp [identical, unalias_idem]
+  | .chan _ _, _ => by simp [identical, unalias_idem]
+  | .func _ _ _, _ => by simp [identical, unalias_idem]
+  | .struct _, _ => by simp [identical, unalias_idem]
+  | .iface _, _ => by simp [identical, unalias_idem]
+  | .named _ _ _ _ _, _ => by simp [identical, unalias_idem]
+
 end LlgoVerif.Types
